@@ -22,7 +22,7 @@ for d in sorted(glob.glob('/verif/seeded/C??-[0-9]*')):
     rows.append((pid,k,meta.get('title','')[:140].replace('|','/'), ', '.join(meta.get('files',[]))[:80], 'yes' if confirmed else 'partly', ', '.join(caught) or '—', first.replace('|','/'), note))
 out=['| seed | change (file) | demo confirmed | caught by | first signature | note |','|---|---|---|---|---|---|']
 for r in rows:
-    out.append(f"| {r[0]}/{r[1]} | {r[2]} (`{r[3]}`) | {r[4]} | {r[5]} | {r[6]} | {r[7]} |")
+    out.append(f"| {r[0]}-{r[1]} | {r[2]} (`{r[3]}`) | {r[4]} | {r[5]} | {r[6]} | {r[7]} |")
 n=len(rows); c=sum(1 for r in rows if r[5]!='—')
 out.append('')
 out.append(f"{c} of {n} seeded changes are reported by at least one check (quick tier unless stated).")
